@@ -54,7 +54,8 @@ carquet_schema_t* carquet_schema_create(carquet_error_t* error) {
     schema->max_rep_levels = calloc(schema->capacity, sizeof(int16_t));
     schema->num_leaves = 0;
 
-    if (!schema->leaf_indices || !schema->max_def_levels || !schema->max_rep_levels) {
+    if (!schema->elements[0].name ||
+        !schema->leaf_indices || !schema->max_def_levels || !schema->max_rep_levels) {
         free(schema->elements);
         free(schema->leaf_indices);
         free(schema->max_def_levels);
@@ -152,6 +153,9 @@ carquet_status_t carquet_schema_add_column(
     memset(elem, 0, sizeof(*elem));
 
     elem->name = carquet_arena_strdup(&schema->arena, name);
+    if (!elem->name) {
+        return CARQUET_ERROR_OUT_OF_MEMORY;
+    }
     elem->has_type = true;
     elem->type = physical_type;
     elem->has_repetition = true;
@@ -203,6 +207,9 @@ int32_t carquet_schema_add_group(
     memset(elem, 0, sizeof(*elem));
 
     elem->name = carquet_arena_strdup(&schema->arena, name);
+    if (!elem->name) {
+        return -1;
+    }
     elem->has_type = false;  /* Groups don't have a type */
     elem->has_repetition = true;
     elem->repetition_type = repetition;
